@@ -298,6 +298,12 @@ func (s *Server) patchApplyRule(res *Resource, key objKey, body map[string]inter
 	if e != nil {
 		return 0, nil, e
 	}
+	// metadata.ownerReferences is a list map keyed by uid: applied entries are
+	// merged with the live ones (a second controller reference is then refused
+	// by validation), not put in their place.
+	if merged, ok := mergeOwnerRefs(getMeta(live)["ownerReferences"], getMeta(body)["ownerReferences"]); ok {
+		getMeta(obj)["ownerReferences"] = merged
+	}
 	out, e := s.commitUpdate(res, key, live, obj)
 	return 200, out, e
 }
@@ -361,4 +367,34 @@ func (s *Server) listLocked(res *Resource, ns, labelSelector string) (map[string
 		"metadata":   map[string]interface{}{"resourceVersion": s.currentRV()},
 		"items":      items,
 	}, nil
+}
+
+func mergeOwnerRefs(live, applied interface{}) ([]interface{}, bool) {
+	ll, ok1 := live.([]interface{})
+	al, ok2 := applied.([]interface{})
+	if !ok1 || !ok2 {
+		return nil, false
+	}
+	out := make([]interface{}, 0, len(ll)+len(al))
+	seen := map[string]int{}
+	for _, r := range ll {
+		if rm, ok := r.(map[string]interface{}); ok {
+			if uid, ok := rm["uid"].(string); ok {
+				seen[uid] = len(out)
+			}
+		}
+		out = append(out, deepCopy(r))
+	}
+	for _, r := range al {
+		if rm, ok := r.(map[string]interface{}); ok {
+			if uid, ok := rm["uid"].(string); ok {
+				if i, dup := seen[uid]; dup {
+					out[i] = applyOverlay(out[i], r)
+					continue
+				}
+			}
+		}
+		out = append(out, deepCopy(r))
+	}
+	return out, true
 }
